@@ -1,19 +1,30 @@
-"""C16 - LBRY URLs parse and print without loss; forbidden strings are rejected (URL half of the property).
+"""C16 - LBRY URLs parse and print without loss; forbidden strings are rejected; the byte envelopes around claim /
+support / purchase messages round-trip (the protobuf messages themselves are opaque).
 
 Interpreted from /repo: URL.parse, URL.__str__, URL.parts, PathSegment.__str__; the regular expression is the module's own
-URL_REGEX (built by the real _create_url_regex at import) interpreted by the symbolic matcher over symbolic code points."""
+URL_REGEX (built by the real _create_url_regex at import) interpreted by the symbolic matcher over symbolic code points;
+Signable.to_bytes / from_bytes and Purchase.to_bytes / from_bytes / has_start_byte over an opaque message."""
+from google.protobuf.message import DecodeError
+
+from lbry.schema.purchase import Purchase
 from lbry.schema.url import URL, PathSegment
+
+from harness.C04 import envelope_parse, FakeMessage      # noqa: F401  (the Signable envelope job is shared with C04)
 
 LEVEL_TEXT = ('Bounded model checking of the real URL parser/printer: every string of up to N arbitrary Unicode code points, '
               'and every URL of each grammar shape with symbolic characters in every name / claim-id / sequence position, is '
               'run through the real URL.parse (the module\'s own regular expression, matched symbolically); acceptance and the '
               'extracted parts are compared with an independent hand-written recogniser of the spec grammar, and '
-              'parse(str(parse(u))) = parse(u), str(parse(u)) = u for canonical u are solver-checked.')
+              'parse(str(parse(u))) = parse(u), str(parse(u)) = u for canonical u are solver-checked.  The envelopes: every byte '
+              'string format-byte || [20-byte channel hash || 64-byte signature] || message parses (Signable.from_bytes) iff the '
+              'format byte is 0 or 1, into exactly those fields, and serialises back to the same bytes; a purchase parses iff it '
+              'starts with "P".')
 LEVEL_NOTE = ('Trusted: z3, the interpreter and its symbolic regex matcher (each path witness is replayed natively with the real '
               '`re`), the reference recogniser.  Outside (not encodable here): the claim/support/purchase protobuf half of the '
               'property - typed accessors and legacy decoders execute inside the protobuf runtime over generated descriptors.')
-ASSUMPTIONS = ['no stubs: the regular expression, string formatting and tuple equality are modelled and replayed natively']
-OUTSIDE = ['claim, support and purchase metadata encode/decode (protobuf runtime)', 'URLs longer than the shape bounds',
+ASSUMPTIONS = ['URL jobs: no stubs - the regular expression, string formatting and tuple equality are modelled and replayed natively',
+               'envelope jobs: the protobuf message is a stand-in whose SerializeToString / ParseFromString store an opaque byte string']
+OUTSIDE = ['claim, support and purchase field encode/decode and legacy claim encodings (protobuf runtime)', 'URLs longer than the shape bounds',
            'unicode normalisation of names (normalize_name)']
 
 FORBIDDEN = '=&#:$@%?;"/\\<>{}|^~`[]'
@@ -148,8 +159,41 @@ SHAPES = ['lbry://nn', 'lbry://@nn', 'lbry://@n/n', 'lbry://n:hh', 'lbry://n#hh'
           'lbry://n\n', 'lbry://@n/n\n', 'lbry://n$d\n', 'lbry://n:h\n']
 
 
+class StubPurchase(Purchase):
+    __slots__ = ()
+
+    def __init__(self, claim_id=None):
+        self.message = FakeMessage()
+
+
+def purchase_envelope(vm):
+    first = vm.new_int('start_byte', 0, 255)
+    message = vm.new_run('message', 0, 2 ** 16)
+    data = (first.to_bytes(1, 'little') + message) if vm.new_bool('non_empty') else b''
+    try:
+        p = StubPurchase.from_bytes(data)
+    except DecodeError:
+        if len(data) > 0 and first == ord('P') and data[0] == ord('P'):
+            return 'VIOLATION: purchase data starting with "P" is refused'
+        return 'ok-refused'
+    except Exception as e:
+        return 'VIOLATION: parsing purchase data raised %s' % type(e).__name__
+    if len(data) == 0 or data[0] != ord('P'):
+        return 'VIOLATION: purchase data that does not start with "P" is accepted'
+    if p.to_message_bytes() != data[1:]:
+        return 'VIOLATION: the purchase message is not everything after the start byte'
+    if p.to_bytes() != data or bytes(p) != data or len(p) != len(data):
+        return 'VIOLATION: a purchase does not serialise back to the same bytes'
+    return 'ok-parsed'
+
+
 def jobs(tier):
     out = []
+    out.append(dict(name='signable-envelope', family='envelope', fn='envelope_parse', args=(), loop_bound=200, max_depth=60, cost=50,
+                    bounds=dict(format_byte='0..255', message='opaque, any length < 2^16'),
+                    must_reach=('ok-unsigned', 'ok-signed', 'ok-refused')))
+    out.append(dict(name='purchase-envelope', family='envelope', fn='purchase_envelope', args=(), loop_bound=200, max_depth=60, cost=50,
+                    bounds=dict(start_byte='0..255 or absent', message='opaque, any length < 2^16'), must_reach=('ok-parsed', 'ok-refused')))
     nmax = 8 if tier == 'quick' else 10
     for n in range(0, nmax + 1):
         out.append(dict(name=f'any-string-{n}', family='any', fn='any_string', args=(n,), loop_bound=200, max_depth=60, cost=30 ** n,
